@@ -25,11 +25,12 @@ class MetadataExprParser(object):
         :rtype: (int, str)
         """
         metadata_expr = metadata_expr.strip()
-        if metadata_expr[0] != METADATA_QUERY_INDICATOR_CHAR:
+        if not metadata_expr.startswith(METADATA_QUERY_INDICATOR_CHAR):
             raise MetadataExprParsingError('Metadata expression must start with "%"')
 
         if '.' in metadata_expr:
-            section_index, metadata_name = metadata_expr[1:].split('.')
+            # What precedes the first dot is the section index
+            section_index, metadata_name = metadata_expr[1:].split('.', 1)
             try:
                 section_index = int(section_index)
             except ValueError:
